@@ -57,7 +57,8 @@ def applySwap (reset : Bool) (levels : List Chain) (idx : List Nat) : List Chain
 /-- Where the annealer writes the adapted ladder: the ladder array **and** the levels. -/
 def setBetas (c : PTChain) (nb : List Rat) : PTChain :=
   { c with betas := nb
-           levels := (c.levels.zip nb).map fun (l, b) => { l with beta := b } }
+           levels := (c.levels.zip (List.range c.levels.length)).map fun (l, t) =>
+                       { l with beta := nb.getD t l.beta } }
 
 /-- The intermediate betas come from the annealer; the end points stay. -/
 def annealedBetas (old nb : List Rat) : List Rat :=
